@@ -870,7 +870,7 @@ def _str_index_incl(eng, st, args, ci):
     return res + _str_index(eng, st, s, a.e, b.e + 1, ci, 'a..=b')
 
 
-@intrinsic(r'^<(std::borrow::)?Cow<.*str> as (std::convert::)?From<.*>>::from$', 'Cow<str>::from (same value)')
+@intrinsic(r'^<(std::borrow::)?Cow<.*str> as (std::convert::)?From<.*>>::from$', 'Cow<str>::from (same value)', prio=4)
 def _cow_from(eng, st, args, ci):
     return args[0]
 
